@@ -846,6 +846,26 @@ func runBurstUnix(c Case) kit.Outcome {
 
 // runClient: a real Conn with pending calls (and optionally an open stream) receives hostile
 // response frames from a scripted server.
+// answersSeq reports whether the library's own header decoder or the reference decoder accepts
+// the frame as a response carrying the given sequence number.
+func answersSeq(enc string, f []byte, seq uint64) bool {
+	if h, err := kit.RefDecodeResponse(enc, f); err == nil && h.Seq == seq {
+		return true
+	}
+	name := enc
+	if name == "default" {
+		name = "pb"
+	}
+	if e := kit.HeaderEncoder(name); e != nil {
+		res := e.NewResponse()
+		res.Reset()
+		if err := e.NewCodec().Unmarshal(append([]byte(nil), f...), res); err == nil && res.GetSeq() == seq {
+			return true
+		}
+	}
+	return false
+}
+
 func runClient(c Case) kit.Outcome {
 	frames, ok := decodeFrames(c)
 	if !ok || len(frames) == 0 || len(frames) > 64 || c.Pending < 0 || c.Pending > 32 {
@@ -904,15 +924,27 @@ func runClient(c Case) kit.Outcome {
 	args := kit.MakePayload(500, 0, 9, 40)
 	var reply []byte
 	call := conn.Go("S.Echo", &args, &reply, make(chan *rpc.Call, 2))
+	collision := false
 	if srv.WaitRequests(want+1, bound) {
 		reqs := srv.Requests()
 		last := reqs[len(reqs)-1]
+		// A hostile frame that is itself a decodable response for the very sequence number the
+		// later call got may legitimately complete that call if the client's (asynchronous)
+		// dispatch had not processed it yet: such a case does not judge the reply.
+		for _, f := range frames {
+			if answersSeq(c.Enc, f, last.Seq) {
+				collision = true
+			}
+		}
 		srv.Respond(kit.ResHeader{Seq: last.Seq, Reply: kit.Transform(args)})
 	}
 	out := kit.Outcome{Sig: c.Origin, Classes: []string{"client-side", "enc=" + c.Enc, originClass(c.Origin)}, Nontrivial: hostile}
+	if collision {
+		out.Counters = map[string]int{"hostile_frame_answers_later_sequence_number": 1}
+	}
 	select {
 	case <-call.Done:
-		if call.Error == nil && !bytes.Equal(reply, kit.Transform(args)) {
+		if call.Error == nil && !bytes.Equal(reply, kit.Transform(args)) && !collision {
 			o := kit.Fail("probe-wrong", "after hostile response frames a later call on the same connection completed with a wrong reply")
 			o.Sig = c.Origin
 			return o
